@@ -3,6 +3,43 @@
     (theorem [C01_okb_spec] in Props/C01.v). *)
 From Verif Require Import Base.Prelude Model.Merge.
 
+(** * Conflicts nested to any depth.
+    [nested n T]: [n] levels of [Merge<...>] around [T]. [flat_deep n] applies
+    [Merge::flatten] [n] times (each call merges the two outermost levels).
+    [wdeep n v x]: the signed count of [v] in [x], outer adds counting positively and outer
+    removes negatively at every level ([wdeep 1 v m = den m v]). *)
+Fixpoint nested (n : nat) (T : Type) : Type :=
+  match n with O => T | S k => list (nested k T) end.
+
+Fixpoint sden {X} (w : X -> Z) (s : bool) (l : list X) : Z :=
+  match l with
+  | [] => 0%Z
+  | x :: t => ((if s then w x else - w x) + sden w (negb s) t)%Z
+  end.
+
+Section Deep.
+  Context {T : Type} (eqb : T -> T -> bool).
+
+  Fixpoint flat_deep (n : nat) : nested (S n) T -> list T :=
+    match n return nested (S n) T -> list T with
+    | O => fun m => m
+    | S k => fun mm => flat_deep k (flatten mm)
+    end.
+
+  Fixpoint wdeep (n : nat) (v : T) : nested n T -> Z :=
+    match n return nested n T -> Z with
+    | O => fun x => if eqb x v then 1%Z else 0%Z
+    | S k => fun l => sden (wdeep k v) true l
+    end.
+
+  (** Every merge at every level has an odd number of terms. *)
+  Fixpoint wf_deep (n : nat) : nested n T -> Prop :=
+    match n return nested n T -> Prop with
+    | O => fun _ => True
+    | S k => fun l => Nat.odd (length l) = true /\ Forall (wf_deep k) l
+    end.
+End Deep.
+
 Record case := mk_case {
   c_m : list N;                 (* Merge<u8> terms *)
   c_simplified : list N;        (* impl: m.simplify() *)
@@ -11,6 +48,8 @@ Record case := mk_case {
                                    distinct fresh terms back with update_from_simplified *)
   c_nested : list (list N);     (* Merge<Merge<u8>> *)
   c_flat : list N;              (* impl: nested.flatten() *)
+  c_nested3 : list (list (list N)); (* Merge<Merge<Merge<u8>>> *)
+  c_flat3 : list N;             (* impl: nested3.flatten().flatten() *)
   c_edit : list N;              (* an edited version of the simplified merge *)
   c_updated : list N;           (* impl: m.update_from_simplified(edit) *)
 }.
@@ -73,6 +112,8 @@ Section Checker.
 
   Definition flat_den_okb (flat : list T) (nested : list (list T)) : bool :=
     forallb (fun v => Z.eqb (den eqb flat v) (den_nested eqb nested v)) (flat ++ concat nested).
+  Definition flat3_den_okb (flat : list T) (n3 : list (list (list T))) : bool :=
+    forallb (fun v => Z.eqb (den eqb flat v) (wdeep eqb 3 v n3)) (flat ++ concat (concat n3)).
 End Checker.
 
 (** Property checker evaluated on the implementation's outputs. *)
@@ -84,6 +125,7 @@ Definition okb (c : case) : bool :=
   && leqb (c_resimplified c) (c_simplified c)
   && mapping_okb N.eqb (c_m c) (c_simplified c) mp
   && flat_den_okb N.eqb (c_flat c) (c_nested c)
+  && flat3_den_okb N.eqb (c_flat3 c) (c_nested3 c)
   && landsb N.eqb (c_m c) mp (c_edit c) (c_updated c)
   && multiset_eqb (changes (c_m c) (c_updated c)) (changes (c_simplified c) (c_edit c)).
 
@@ -93,5 +135,6 @@ Definition check_case (c : case) : N :=
     && leqb (simplify N.eqb (simplify N.eqb (c_m c))) (c_resimplified c)
     && leqb (map N.of_nat (simplified_mapping N.eqb (c_m c))) (c_mapping c)
     && leqb (flatten (c_nested c)) (c_flat c)
+    && leqb (flat_deep 2 (c_nested3 c)) (c_flat3 c)
     && leqb (update_from_simplified N.eqb (c_m c) (c_edit c)) (c_updated c) in
   verdict corr (okb c) false 1.
